@@ -1,6 +1,6 @@
 #!/bin/bash
 # usage: sweep.sh "<props>" "<seeds>" [tier]  — runs the checks on the current /repo tree and prints one line per run
-cd /verif
+cd "$(dirname "$(readlink -f "$0")")/.."
 TIER=${3:-thorough}
 for s in $2; do for p in $1; do
   OUT=$(VERIF_SEED=$s ./check $p --tier $TIER 2>&1); RC=$?
